@@ -7,6 +7,7 @@ are checked in every state.  Lookup clause: for every small store x every hash p
 the bytes of the unique match or raises."""
 from __future__ import annotations
 
+import ast
 import hashlib
 import itertools
 import json
@@ -34,7 +35,7 @@ RUNS = [([], None), (["create"], None), (["fix"], None), (["trim"], None), (["cr
 
 
 def bounds(tier):
-    return {"fixed_histories": {"suffix_pairs": len(SITES) * (len(SITES) - 1), "flows": list(H_FLOWS), "cwd_histories": 18, "prefix_collision_histories": 12}, "configs": CFGS, "depth_per_config": [_depth(tier, i) for i in range(len(CFGS))], "session_events": len(RUNS), "edit_events": 4}
+    return {"fixed_histories": {"suffix_pairs": len(SITES) * (len(SITES) - 1), "flows": list(H_FLOWS), "cwd_histories": 18, "import_shape_histories": len(IMP_HEADERS) * len(IMP_FLOWS), "prefix_collision_histories": 12}, "configs": CFGS, "depth_per_config": [_depth(tier, i) for i in range(len(CFGS))], "session_events": len(RUNS), "edit_events": 4}
 
 
 def _depth(tier, ci):
@@ -203,6 +204,11 @@ def _hist_cases(tier):
             for flow in H_FLOWS:
                 for hl in ((12,) if tier == "quick" else (12, 64, 3)):
                     cases.append({"hist": "suffix", "a": a, "b": b, "flow": flow, "hl": hl})
+    for h in IMP_HEADERS:
+        for flow in IMP_FLOWS:
+            if flow == "create-tidy-trim" and h not in IMP_BINDS_EXTERNAL:
+                continue
+            cases.append({"hist": "imports", "header": h, "flow": flow})
     # two referenced payloads whose hashes agree on the configured prefix length: an approved trim must keep both
     for hl in (1, 2):
         for order in ("first-then-second", "both"):
@@ -213,6 +219,31 @@ def _hist_cases(tier):
             for order in (["root", "sub", "root", "sub"], ["sub", "root", "sub", "root"], ["sub", "sub", "root", "root"]):
                 cases.append({"hist": "cwd", "layout": layout, "sd": sd, "order": order})
     return cases
+
+
+# where the names come from: the library only recognises a reference below a top-level `from inline_snapshot import external`
+IMP_LIB = "from inline_snapshot import external, outsource, snapshot\n"
+IMP_HEADERS = {
+    "canonical": "from inline_snapshot import snapshot, outsource\n",
+    "reexport": "from testlib import external, outsource, snapshot\n",
+    "reexport-without-external": "from testlib import outsource, snapshot\n",
+    "module-and-names": "import inline_snapshot\nfrom inline_snapshot import snapshot, outsource\n",
+    "star": "from inline_snapshot import *\n",
+    "try": "try:\n    from inline_snapshot import external, outsource, snapshot\nexcept ImportError:\n    raise\n",
+    "other-binding": "from inline_snapshot import snapshot, outsource\nfrom os.path import join as external\n",
+    "two-lines": "from inline_snapshot import snapshot\nfrom inline_snapshot import outsource\n",
+    "already": "from inline_snapshot import external\nfrom inline_snapshot import snapshot, outsource\n",
+    "already-aliased": "from inline_snapshot import external as ext, snapshot, outsource\n",
+}
+IMP_FLOWS = {
+    "create-trim": [["create"], ["trim"], []],
+    "create+trim": [["create", "trim"], []],
+    "create-fix-trim": [["create"], "newdata", ["fix"], ["trim"], []],
+    "create-all": [["create"], ["create", "fix", "trim", "update"], []],
+    # the user removes the import line the tool added where their own header already binds the name (a linter calls it a redefinition)
+    "create-tidy-trim": [["create"], "tidy", ["trim"], []],
+}
+IMP_BINDS_EXTERNAL = ("reexport", "star", "try")
 
 
 def _hist_file(kinds, prev_text):
@@ -300,6 +331,57 @@ def _run_hist(case):
                 prev_new = {x for x in store if "-new" in x}
                 rejected = "path has to be of the form" in r["out"] or "suffix has to start with" in r["out"]  # outsource() refused the suffix inside the test: a test failure of its own
                 if not flags and "snapshot()" not in text and r["rc"] != 0 and not rejected:
+                    V("plain-session-fails-after-approved-sessions", "%s rc=%s %s" % (label, r["rc"], r["out"][-500:]))
+                if viol:
+                    break
+        finally:
+            plugin.cleanup()
+    elif case["hist"] == "imports":
+        body = "\n\ndef test_a():\n    assert outsource(%s) == snapshot()\n\n\ndef test_b():\n    assert [outsource(b'second')] == snapshot()\n"
+        data = "'payload'"
+        d = plugin.mk_project({"pyproject.toml": "", "testlib.py": IMP_LIB, "test_h.py": IMP_HEADERS[case["header"]] + body % data,
+                               "test_other.py": "from inline_snapshot import snapshot, outsource\n\n\ndef test_o():\n    assert outsource('other-data') == snapshot()\n"})
+        sp = ".inline-snapshot/external/"
+        try:
+            for step, flags in enumerate(IMP_FLOWS[case["flow"]]):
+                if flags == "newdata":
+                    t = plugin.listing(d, text=True)["test_h.py"]
+                    plugin.write_files(d, {"test_h.py": t.replace("outsource(%s)" % data, "outsource('changed')")})
+                    data = "'changed'"
+                    continue
+                if flags == "tidy":
+                    t = plugin.listing(d, text=True)["test_h.py"]
+                    if t.count("from inline_snapshot import external\n") != 1:
+                        V("harness-tidy-edit-impossible", t[:300])
+                        break
+                    plugin.write_files(d, {"test_h.py": t.replace("from inline_snapshot import external\n", "")})
+                    continue
+                r = plugin.session(d, ["--inline-snapshot=" + ",".join(flags)] if flags else [])
+                n += 1
+                label = "step %d (%s)" % (step, flags)
+                if plugin.internal_error(r["out"]) or r["rc"] not in (0, 1):
+                    V("internal-error", "%s rc=%s %s" % (label, r["rc"], r["out"][-600:]))
+                    break
+                after = plugin.listing(d)
+                store = {k[len(sp):]: v for k, v in after.items() if k.startswith(sp) and not k.endswith(".gitignore")}
+                expect = {"test_h.py": [eval(data).encode(), b"second"], "test_other.py": [b"other-data"]}
+                for fn, datas in expect.items():
+                    text = after[fn].decode()
+                    try:
+                        ast.parse(text)
+                    except SyntaxError as e:
+                        V("file-not-valid-python", "%s: %s %s" % (label, fn, e))
+                        continue
+                    refs = re.findall(r'external\("([0-9a-f]*)\*?(\.\w+)"\)', text)
+                    if len(refs) != len(datas):
+                        V("reference-not-written", "%s: %s has %d references, %d outsourced values\n%s" % (label, fn, len(refs), len(datas), text))
+                        continue
+                    for (h, suf), dt in zip(refs, datas):
+                        cand = [x for x in store if "-new" not in x and x.startswith(h) and x.endswith(suf)]
+                        if len(cand) != 1 or store[cand[0]] != dt or hashlib.sha256(dt).hexdigest() != cand[0].split(".")[0]:
+                            V("written-reference-has-no-unique-persisted-file", "%s: %s references %s*%s for %r, storage %s\n%s" % (
+                                label, fn, h, suf, dt, sorted(x[:8] + x[64:] for x in store), text[:300]))
+                if not flags and r["rc"] != 0:
                     V("plain-session-fails-after-approved-sessions", "%s rc=%s %s" % (label, r["rc"], r["out"][-500:]))
                 if viol:
                     break
